@@ -862,6 +862,7 @@ func c07Extra(c *Ctx) {
 		{Name: "Ts", In: "Req", Out: "Reply", Unary: h, Rule: getRule("/c07x/ts/{ts}")},
 		{Name: "Many", In: "Req", Out: "Reply", Unary: h, Rule: getRule("/c07x/many/{name}/{nested.s}")},
 		{Name: "Ws", In: "Req", Out: "Reply", ClientStream: true, ServerStream: true, Stream: ws, Rule: customRule("WEBSOCKET", "/c07x/ws/{name}", "*")},
+		{Name: "WsWatch", In: "Req", Out: "Reply", ClientStream: true, ServerStream: true, Stream: ws, Rule: customRule("WEBSOCKET", "/c07x/wsw/{name}", "")}, // NO body: the request is the URL alone
 		{Name: "WsGreet", In: "Req", Out: "Reply", ClientStream: true, ServerStream: true, Rule: customRule("WEBSOCKET", "/c07x/wsg/{name}", "*"),
 			Stream: func(fx *Fixture, ms *MethodSpec, st grpc.ServerStream) error {
 				if err := st.SendMsg(fx.NewMsg("Reply")); err != nil { // greets before it receives
@@ -1115,6 +1116,37 @@ func c07Extra(c *Ctx) {
 			c.SpecFail("path-wins-ws", in, "handler received nothing", "a first message", "C07/ws/no-message", "the websocket handler did not receive the first message")
 		} else if g := field(wsFirst, "name"); g != "PATH" {
 			c.SpecFail("path-wins-ws", in, "name="+g, "PATH", "C07/path-overridden/ws-name", "over WebSocket the first frame or the query replaced the value captured from the path")
+		}
+	}
+	// a websocket rule WITHOUT a body (watch / subscribe style): the first message is the URL alone
+	for _, q := range []string{"", "?name=QUERY", "?other_name=o&name=QUERY"} {
+		wsFirst = nil
+		url := "ws" + strings.TrimPrefix(fx.HTTPServer().URL, "http") + "/c07x/wsw/PATH" + q
+		ctx, cancel := context.WithTimeout(context.Background(), 3*time.Second)
+		conn, br, _, err := gws.Dial(ctx, url)
+		cancel()
+		in := "websocket /c07x/wsw/PATH" + q + " (rule without a body, no frame sent)"
+		c.Eval("path-wins-ws", in, true)
+		c.Class("extra:ws-bodyless")
+		if err != nil {
+			c.SpecFail("path-wins-ws", in, err.Error(), "a connection", "C07/ws/dial", "websocket dial failed")
+			continue
+		}
+		conn.SetDeadline(time.Now().Add(3 * time.Second))
+		var rw io.ReadWriter = conn
+		if br != nil {
+			rw = struct {
+				io.Reader
+				io.Writer
+			}{br, conn}
+		}
+		wsutil.ReadServerData(rw) //nolint
+		conn.Close()
+		time.Sleep(5 * time.Millisecond)
+		if wsFirst == nil {
+			c.SpecFail("path-wins-ws", in, "handler received nothing", "a first message", "C07/ws/no-message", "the websocket handler did not receive the first message")
+		} else if g := field(wsFirst, "name"); g != "PATH" {
+			c.SpecFail("path-wins-ws", in, "name="+g, "PATH", "C07/path-overridden/ws-bodyless-name", "on a websocket rule without a body the path-bound field does not carry the captured value")
 		}
 	}
 }
